@@ -343,6 +343,7 @@ class DeepTracer(Tracer):
                 n = None
             exp += self.r_sa(s, post) + ['1'] + self.r_ext(s) + opt(None if n is None else self.r_ext(n))
         exp += info['tail']
+        exp += self.r_sad(ep.kernel)      # the kernel after the round = the round's netlink requests applied in order (wholeStep)
         self.xlines.append((' '.join(line), ' '.join(exp), {'ep': ep.name, 'ok': not info['interrupted'], 'kind': info['kind'], 'now': info['now']}))
 
     # ------------------------------------------------------------- comparison
